@@ -56,7 +56,7 @@ func genC04(e *emitter, tier string, seed uint64) {
 	}
 	lits := []string{"minus", "plus", "none"}
 	envs := map[string]chan *sfEnv{}
-	for _, l := range lits {
+	for _, l := range []string{"minus", "plus", "none", "minus/af", "plus/af"} {
 		for _, pa := range []bool{false, true} {
 			ch := make(chan *sfEnv, 4)
 			for i := 0; i < 4; i++ {
@@ -75,6 +75,14 @@ func genC04(e *emitter, tier string, seed uint64) {
 	for i, cmds := range c04Corpus() {
 		e.emit("stream", run(lits[i%3], false, true, cmds)...)
 	}
+	// the backend refuses the APPEND without reading the message: the handler has to drain it
+	for _, st := range []string{
+		"p LOGIN u p\r\na APPEND nosuch {26}\r\n\r\nz LOGIN u p\r\nx DELETE y\r\n\r\nb NOOP\r\n",
+		"p LOGIN u p\r\na APPEND nosuch {26+}\r\n\r\nz LOGIN u p\r\nx DELETE y\r\n\r\nb NOOP\r\n",
+	} {
+		e.emit("stream", run("minus/af", false, true, sfParse([]byte(st)))...)
+		e.emit("stream", run("plus/af", false, false, sfParse([]byte(st)))...)
+	}
 	base := newRng(seed, "C04")
 	seeds := make([]uint64, n)
 	for i := range seeds {
@@ -83,6 +91,9 @@ func genC04(e *emitter, tier string, seed uint64) {
 	parCases(e, n, func(i int) []caseLine {
 		g := &sfGen{r: &rng{s: seeds[i]}}
 		lit := lits[g.r.intn(3)]
+		if lit != "none" && g.r.chance(1, 6) {
+			lit += "/af" // the backend refuses every APPEND without reading the message
+		}
 		preauth := g.r.chance(1, 4)
 		if preauth {
 			g.state = 1
